@@ -1,5 +1,7 @@
 import re
 
+re_bare_exponent = re.compile(r'(?<=[0-9.])([-+][0-9]+)$')
+
 
 def shorten(s, N=80):
     """
@@ -33,3 +35,15 @@ def nol(txt, start=None, end=None):
         return txt.count('\r', start, end) + 1
     else:
         return txt.count('\n', start, end) + 1
+
+
+def to_float(token):
+    """
+    Convert a number written in any of the spellings MCNP (Fortran) accepts:
+    '1.5e2', '1.5E2', '1.5d2', '1.5D2' and '1.5+2' all denote 150.
+    """
+    token = token.strip().lower().replace('d', 'e')
+    try:
+        return float(token)
+    except ValueError:
+        return float(re_bare_exponent.sub(r'e\1', token))
